@@ -50,10 +50,13 @@ void a_str_swap(a_str *lhs, a_str *rhs)
 
 char *a_str_exit(a_str *ctx)
 {
-    char *const str = ctx->ptr_;
+    char *str = A_NULL;
     if (ctx->ptr_)
     {
-        ctx->ptr_[ctx->num_] = 0;
+        /* the non-terminating appenders may have filled the capacity: make room for the terminator */
+        if (a_str_setm(ctx, ctx->num_ + 1) != A_SUCCESS) { return str; }
+        str = ctx->ptr_;
+        str[ctx->num_] = 0;
         ctx->ptr_ = A_NULL;
     }
     ctx->num_ = 0;
